@@ -27,6 +27,43 @@ type icSpec struct {
 	Path  string `json:"path"`
 	Alias string `json:"alias"`
 	Quote string `json:"quote,omitempty"` // how the path literal is written: "" = "path", "raw" = `path`, "esc" = first byte as \xNN
+	// layout of the spec in its block ("" / absent: a plain new line before and after, no comments)
+	Before string   `json:"before,omitempty"` // "empty": an empty line above (the spec leads a group)
+	After  string   `json:"after,omitempty"`  // "empty": an empty line below
+	Start  []string `json:"start,omitempty"`  // comments (and line breaks) above the spec
+	End    []string `json:"end,omitempty"`    // comments after the spec
+}
+
+func icSpace(s string) dst.SpaceType {
+	if s == "empty" {
+		return dst.EmptyLine
+	}
+	return dst.NewLine
+}
+
+// genImportLayout gives the specs of a configuration a layout of their own: groups separated by
+// empty lines anywhere (also inside the standard-library part, also more than two groups, also no
+// empty line above the first dotted path), comments above and behind specs. The decorator records
+// an empty line on both neighbours (After of the spec above, Before of the spec below); hand-built
+// trees need not, so both forms occur.
+func genImportLayout(r *rand.Rand, c *icConfig) {
+	for bi := range c.Blocks {
+		b := c.Blocks[bi]
+		for si := range b {
+			if si > 0 && r.Intn(3) == 0 {
+				b[si].Before = "empty"
+				if r.Intn(4) != 0 {
+					b[si-1].After = "empty"
+				}
+			}
+			if r.Intn(6) == 0 {
+				b[si].Start = []string{fmt.Sprintf("// about %s", b[si].Path), "\n"}
+			}
+			if r.Intn(6) == 0 {
+				b[si].End = []string{fmt.Sprintf("// %s", b[si].Path)}
+			}
+		}
+	}
 }
 
 // the path literal of an import spec in one of the three spellings the language allows
@@ -159,8 +196,10 @@ func icBuild(c icConfig) (*dst.File, []*dst.GenDecl) {
 			if s.Alias != "" {
 				is.Name = dst.NewIdent(s.Alias)
 			}
-			is.Decs.Before = dst.NewLine
-			is.Decs.After = dst.NewLine
+			is.Decs.Before = icSpace(s.Before)
+			is.Decs.After = icSpace(s.After)
+			is.Decs.Start.Append(s.Start...)
+			is.Decs.End.Append(s.End...)
 			gd.Specs = append(gd.Specs, is)
 		}
 		f.Decls = append(f.Decls, gd)
@@ -185,6 +224,7 @@ type icObs struct {
 	Err       error
 	Panic     string
 	Blocks    [][]icObsSpec // managed import blocks after the run
+	Snapshot  [][]icObsSpec // the same blocks of the tree as handed to the restorer (taken before the run)
 	Paren     []bool
 	Names     map[string]string // used path -> qualifier in the restored ast ("" = bare)
 	Output    string
@@ -194,6 +234,35 @@ type icObs struct {
 type icObsSpec struct {
 	Path, Alias   string
 	Before, After dst.SpaceType
+	Start, End    string // the decorations above / behind the spec, %q of the list
+}
+
+func (s icObsSpec) decs() string {
+	return fmt.Sprintf("before=%v after=%v start=%s end=%s", s.Before, s.After, s.Start, s.End)
+}
+
+// icObserveBlocks: the import declarations of the tree (the cgo-only ones aside), every spec with
+// its name and all its decorations
+func icObserveBlocks(f *dst.File, cgoOnly map[*dst.GenDecl]bool) (blocks [][]icObsSpec, paren []bool) {
+	for _, d := range f.Decls {
+		gd, ok := d.(*dst.GenDecl)
+		if !ok || gd.Tok != token.IMPORT || cgoOnly[gd] {
+			continue
+		}
+		var specs []icObsSpec
+		for _, s := range gd.Specs {
+			is := s.(*dst.ImportSpec)
+			p, _ := strconv.Unquote(is.Path.Value)
+			a := ""
+			if is.Name != nil {
+				a = is.Name.Name
+			}
+			specs = append(specs, icObsSpec{p, a, is.Decs.Before, is.Decs.After, fmt.Sprintf("%q", []string(is.Decs.Start)), fmt.Sprintf("%q", []string(is.Decs.End))})
+		}
+		blocks = append(blocks, specs)
+		paren = append(paren, gd.Lparen)
+	}
+	return
 }
 
 func icRun(c icConfig) (o icObs, f *dst.File) {
@@ -211,6 +280,7 @@ func icRun(c icConfig) (o icObs, f *dst.File) {
 		fr.Alias[k] = v
 	}
 	var af *ast.File
+	o.Snapshot, _ = icObserveBlocks(f, cgoOnly)
 	o.Panic = safely(func() { af, o.Err = fr.RestoreFile(f) })
 	o.CallOrder = res.calls
 	if o.Panic != "" {
@@ -225,24 +295,7 @@ func icRun(c icConfig) (o icObs, f *dst.File) {
 		}
 		return
 	}
-	for _, d := range f.Decls {
-		gd, ok := d.(*dst.GenDecl)
-		if !ok || gd.Tok != token.IMPORT || cgoOnly[gd] {
-			continue
-		}
-		var specs []icObsSpec
-		for _, s := range gd.Specs {
-			is := s.(*dst.ImportSpec)
-			p, _ := strconv.Unquote(is.Path.Value)
-			a := ""
-			if is.Name != nil {
-				a = is.Name.Name
-			}
-			specs = append(specs, icObsSpec{p, a, is.Decs.Before, is.Decs.After})
-		}
-		o.Blocks = append(o.Blocks, specs)
-		o.Paren = append(o.Paren, gd.Lparen)
-	}
+	o.Blocks, o.Paren = icObserveBlocks(f, cgoOnly)
 	o.Names = map[string]string{}
 	for dn, an := range r.Ast.Nodes {
 		id, ok := dn.(*dst.Ident)
@@ -437,11 +490,18 @@ func c07Check(c icConfig) (key, what string) {
 				before = append(before, s.Path)
 			}
 		}
+		// the decorations every spec had in the tree handed to the restorer (paths are unique here)
+		had := map[string]icObsSpec{}
+		for _, b := range o.Snapshot {
+			for _, s := range b {
+				had[s.Path] = s
+			}
+		}
 		for _, b := range o.Blocks {
 			for _, s := range b {
 				after = append(after, s.Path)
-				if s.Before != dst.NewLine || s.After != dst.NewLine {
-					return "c07-preserve", fmt.Sprintf("no import was added, yet the spacing of spec %q changed", s.Path)
+				if h, ok := had[s.Path]; ok && h.decs() != s.decs() {
+					return "c07-preserve", fmt.Sprintf("no import was added, yet the decorations of the spec %q that stays changed: %s -> %s\n%s", s.Path, h.decs(), s.decs(), o.Output)
 				}
 			}
 		}
@@ -460,7 +520,7 @@ func c07Check(c icConfig) (key, what string) {
 }
 
 func c07Prop(c *Ctx) {
-	c.Res.Rule = "import configurations drawn from one PRNG: 0-3 blocks of 0-4 specs over 13 collision-heavy paths (equal package names, dotted/undotted, cgo) with aliases in {none,_,.,names}, 0-5 referenced paths (plus local / empty), 0-2 Alias overrides, complete resolver map; non-trivial = distinct configuration with at least one referenced path"
+	c.Res.Rule = "import configurations drawn from one PRNG: 0-3 blocks of 0-4 specs over 13 collision-heavy paths (equal package names, dotted/undotted, cgo) with aliases in {none,_,.,names}, 0-5 referenced paths (plus local / empty), 0-2 Alias overrides, complete resolver map; the same with a layout per spec (groups separated by empty lines anywhere, comments above / behind specs) and mostly only imported paths referenced: specs that stay keep the decorations of the tree handed to the restorer; source files with laid-out import blocks (hand-written + generated) from which every import in turn becomes unused: tree decorations, go/parser view of the specs that stay and the bytes between neighbours that stay are unchanged; non-trivial = distinct configuration with at least one referenced path"
 	n := c.N(700)
 	for i := 0; i < n; i++ {
 		cfg := genImportConfig(c.Rng, false, false)
@@ -478,6 +538,33 @@ func c07Prop(c *Ctx) {
 			c.Res.Samples = append(c.Res.Samples, cfg)
 		}
 	}
+	// blocks with a layout of their own (groups, comments) from which imports disappear and to
+	// which, mostly, nothing is added: the specs that stay keep their decorations. Own random
+	// stream: the configurations above stay as they were.
+	lrng := rand.New(rand.NewSource(c.Seed*7919 + 7))
+	for i := 0; i < c.N(400); i++ {
+		cfg := genImportConfig(lrng, false, false)
+		genImportLayout(lrng, &cfg)
+		if lrng.Intn(4) != 0 {
+			// only imported paths are referenced, each with probability 2/3: nothing to add
+			cfg.Used = nil
+			for _, b := range cfg.Blocks {
+				for _, s := range b {
+					if s.Path != "C" && lrng.Intn(3) != 0 {
+						cfg.Used = append(cfg.Used, s.Path)
+					}
+				}
+			}
+		}
+		c.Res.Evaluations++
+		b, _ := json.Marshal(cfg)
+		c.Res.seen(string(b))
+		c.Res.hist("c07-layout", c07LayoutClass(cfg))
+		if key, what := c07Check(cfg); key != "" {
+			c.Res.fail(key, what, cfg)
+		}
+	}
+	c07SourceDeletions(c)
 	// the recorded finding: one path imported twice under two names
 	dup := icConfig{Local: "example.com/local", Blocks: [][]icSpec{{{Path: "fmt"}, {Path: "fmt", Alias: "f2"}}}, Paren: []bool{true}, Used: []string{"fmt"},
 		Alias: map[string]string{}, Resolver: map[string]string{"fmt": "fmt"}}
@@ -586,6 +673,11 @@ func init() {
 	props["C07"] = c07Prop
 	corrs["C07"] = importsCorr
 	replays["C07"] = func(c *Ctx, raw json.RawMessage) (bool, string) {
+		var si c07SrcInput
+		if err := json.Unmarshal(raw, &si); err == nil && si.Src != "" && si.Remove != "" {
+			key, what := c07SrcCheck(si)
+			return key != "", what
+		}
 		var cfg icConfig
 		if err := json.Unmarshal(raw, &cfg); err != nil || cfg.Local == "" {
 			return false, "not an import configuration"
